@@ -46,10 +46,10 @@
 #undef protected
 using namespace vh;
 
-// The unchanged tree has two confirmed state leaks inside ClipperOffset::DoGroupOffset (reported separately under the
-// labels kf.offset-endtype-leak / kf.offset-delta-abs-leak with fixed inputs).  While they are present the generic
-// offset generator avoids exactly their triggers; set to false once they are fixed and the generator covers them too.
-static const bool KNOWN_OFFSET_STATE_DEFECTS_PRESENT = true;
+// The three state leaks of ClipperOffset found by this harness (end_type_ after a 2-point Joined path, delta_ after a
+// point-less Polygon group, CheckReverseOrientation on a point-less group) and the empty-path fault are fixed in /repo
+// (bd5ab48, 058ce9d, 7cb0e75, 85fe8ed): their inputs are fixed corpus records (off.corpus.*) and their triggers are part
+// of the generic generators.
 // Execute(DeltaCallback64, …) stores the callback in the object (same effect as the public SetDeltaCallback); a later
 // Execute(double, …) keeps using it.  Reported as an observation (statistic) unless this is switched on.
 static const bool REPORT_CALLBACK_STICKY_AS_FAILURE = false;
@@ -526,7 +526,7 @@ static void emit_offframe(const std::vector<OGroup>& gs, int64_t delta) {
   co.Execute((double)delta, r);
   std::string req = "OFFFRAME " + S(delta) + " " + std::to_string(gs.size());
   for (auto& g : gs) req += " " + std::to_string(g.jt) + " " + std::to_string(g.et) + " " + S(g.paths);
-  // delta_ and group_delta_ hold integers here (|delta| >= 1, integer valued): print them as integers
+  // delta_ and group_delta_ hold integers here (integer valued delta; 0 = the insignificant branch, members untouched)
   std::string exp = S((int64_t)co.delta_) + " " + S((int64_t)co.group_delta_) + " " + std::to_string((int)co.join_type_) + " " + std::to_string((int)co.end_type_);
   emitM("off.frame.model", req, exp);
 }
@@ -566,53 +566,30 @@ static void offcheck_random(Rng& g, int iters) {
     if (g.chance(35)) idelta = -idelta;
     double delta = (double)idelta;
     if (g.chance(20)) delta += 0.5;
+    if (g.chance(4)) { static const double small[] = {0.0, 0.25, -0.25, 0.49}; delta = small[g.next() % 4]; idelta = 0; stat("off.gen.delta_insignificant"); }
     std::vector<OGroup> gs;
     int cell = 0;
-    bool has_open_group = false;
     for (int gi = 0; gi < ng; ++gi) {
       OGroup og;
       og.jt = (int)(g.next() % 4);
       og.et = (int)(g.next() % 5);
       if (!positive && og.et != 0) og.et = 0;   // a reversed Polygon group decides the final fill rule for everyone: keep such calls Polygon-only here (see offcheck_orientation)
-      if (og.et != 0) has_open_group = true;
       int np = (int)g.range(1, 4);
       for (int pi = 0; pi < np; ++pi) {
         Path64 p = gen_offset_path(g, og.et, positive);
-        if (og.et >= 2 && p.empty()) continue;
         og.paths.push_back(place(p, 100000 * cell, 100000 * cell));   // disjoint x- and y-ranges: see offcheck_observations (scanbeam rounding)
         ++cell;
       }
-      if (g.chance(6) && og.et == 0) { og.paths.insert(og.paths.begin() + g.range(0, (int64_t)og.paths.size()), Path64()); stat("off.gen.empty_path_in_closed_group"); }
+      if (g.chance(8)) { og.paths.insert(og.paths.begin() + g.range(0, (int64_t)og.paths.size()), Path64()); stat(std::string("off.gen.empty_path_in_group.") + ETN[og.et]); }
       if (og.paths.empty()) continue;
       gs.push_back(og);
     }
-    // a point-less Polygon group ahead of negatively oriented ones also flips the final fill rule (kf.offset-empty-group-orientation)
-    if (g.chance(5) && (positive || !KNOWN_OFFSET_STATE_DEFECTS_PRESENT)) { OGroup e; e.jt = (int)(g.next() % 4); e.et = 0; e.paths = Paths64{Path64()}; gs.insert(gs.begin() + g.range(0, (int64_t)gs.size()), e); stat("off.gen.pointless_polygon_group"); }
-    if (gs.empty()) continue;
-    (void)has_open_group;
-    if (KNOWN_OFFSET_STATE_DEFECTS_PRESENT) {
-      // trigger (a): a Joined group holding a 2-point path and a longer one (some order puts the short one first)
-      for (auto& og : gs) if (og.et == 1) {
-        bool has2 = false, has3 = false;
-        for (auto& p : og.paths) { size_t l = stripped_len(p, og.et); if (l == 2) has2 = true; if (l >= 3) has3 = true; }
-        if (has2 && has3) {
-          Paths64 keep;
-          for (auto& p : og.paths) if (stripped_len(p, og.et) != 2) keep.push_back(p);
-          og.paths = keep;
-          stat("off.gen.avoided_known_defect_a");
-        }
-      }
-      // trigger (b): a Polygon group without any point, another group, and a negative delta
-      if (delta < 0 && gs.size() > 1) {
-        std::vector<OGroup> keep;
-        for (auto& og : gs) {
-          bool pts = false;
-          for (auto& p : og.paths) if (!p.empty()) pts = true;
-          if (og.et == 0 && !pts) { stat("off.gen.avoided_known_defect_b"); continue; }
-          keep.push_back(og);
-        }
-        gs = keep;
-      }
+    // point-less groups anywhere (a Polygon one ahead of a shrink or of negatively oriented paths used to leak state)
+    if (g.chance(8)) { OGroup e; e.jt = (int)(g.next() % 4); e.et = positive && g.chance(30) ? (int)(g.next() % 5) : 0; e.paths = Paths64{Path64()}; if (g.coin()) e.paths.push_back(Path64()); gs.insert(gs.begin() + g.range(0, (int64_t)gs.size()), e); stat("off.gen.pointless_group"); }
+    for (auto& og : gs) if (og.et == 1) {
+      bool has2 = false, has3 = false;
+      for (auto& p : og.paths) { size_t l = stripped_len(p, og.et); if (l == 2) has2 = true; if (l >= 3) has3 = true; }
+      if (has2 && has3) stat("off.gen.joined_group_with_2pt_and_longer_paths");
     }
     if (gs.empty()) continue;
     double ml = g.chance(30) ? (double)g.range(1, 5) : 2.0;
@@ -674,7 +651,7 @@ static void offcheck_random(Rng& g, int iters) {
     }
 
     // 5. model tie for the frame (integer deltas only): every prefix of the path list of the last group
-    if (delta == (double)idelta && (it % 4 == 0 || g_thorough)) {
+    if (delta == (double)idelta && (it % 4 == 0 || g_thorough || idelta == 0)) {
       std::vector<OGroup> pre = gs;
       Paths64 all = pre.back().paths;
       for (size_t k = 1; k <= all.size(); ++k) {
@@ -685,7 +662,7 @@ static void offcheck_random(Rng& g, int iters) {
   }
 }
 
-// the two confirmed defects, with fixed inputs
+// corpus: the inputs of the former state leaks (fixed in /repo), kept as regression records
 static void offcheck_known() {
   {  // (a) end_type_ overwritten for a 2-point path of a Joined group and never restored
     Path64 p2 = {{0, 0}, {100, 0}}, p3 = {{1000, 1000}, {1100, 1000}, {1100, 1100}};
@@ -694,7 +671,7 @@ static void offcheck_known() {
     Paths64 alone = r2; alone.insert(alone.end(), r3.begin(), r3.end());
     stat("off.known_inputs");
     if (canon_closed(rb) != canon_closed(alone) || canon_closed(rb) != canon_closed(rs))
-      fail("kf.offset-endtype-leak", "ClipperOffset AddPaths({{(0,0),(100,0)},{(1000,1000),(1100,1000),(1100,1100)}}, Miter, Joined), Execute(10): the 3-point path is offset open-ended (square caps) instead of Joined because the preceding 2-point path left end_type_=Square; alone or listed first it is offset as Joined");
+      fail("off.corpus.joined-2pt-then-longer", "ClipperOffset AddPaths({{(0,0),(100,0)},{(1000,1000),(1100,1000),(1100,1100)}}, Miter, Joined), Execute(10): the 3-point path is not offset as it is alone or when listed first (end_type_ left over from the 2-point path)");
     emit_offframe(both, 10); emit_offframe(swapped, 10); emit_offframe(second, 10);
   }
   {  // (b) delta_ = abs(delta_) for a Polygon group without points persists into the following groups
@@ -703,20 +680,40 @@ static void offcheck_known() {
     Paths64 rb = offset_fresh(both, -10), ro = offset_fresh(only, -10), rs = offset_fresh(swapped, -10);
     stat("off.known_inputs");
     if (canon_closed(rb) != canon_closed(ro) || canon_closed(rs) != canon_closed(ro))
-      fail("kf.offset-delta-abs-leak", "ClipperOffset AddPaths({{}}, Miter, Polygon); AddPaths({{(0,0),(100,0),(100,100),(0,100)}}, Miter, Polygon); Execute(-10): the square is inflated to 120x120 instead of shrunk to 80x80 because the point-less group replaced delta_ by abs(delta_); alone or added first it is shrunk");
+      fail("off.corpus.pointless-polygon-group-then-shrink", "ClipperOffset AddPaths({{}}, Miter, Polygon); AddPaths({{(0,0),(100,0),(100,100),(0,100)}}, Miter, Polygon); Execute(-10): the square is not shrunk as it is alone or when added first (delta_ changed by the point-less group)");
     emit_offframe(both, -10); emit_offframe(swapped, -10); emit_offframe(only, -10);
   }
 }
 
-// (c) CheckReverseOrientation takes the first Polygon group even when it has no points (is_reversed == false by default)
+// corpus (c): a point-less first Polygon group must not decide the fill rule of the final union; (d) empty paths in
+// open-ended and Joined groups are skipped (used to read path[0] / norms[0] of an empty vector)
 static void offcheck_known_c() {
   Path64 neg = {{0, 0}, {0, 100}, {100, 100}, {100, 0}};   // negative area
   std::vector<OGroup> first = {OGroup{Paths64{Path64()}, 3, 0}, OGroup{Paths64{neg}, 3, 0}}, only = {OGroup{Paths64{neg}, 3, 0}}, last = {OGroup{Paths64{neg}, 3, 0}, OGroup{Paths64{Path64()}, 3, 0}};
   Paths64 rf = offset_fresh(first, 10), ro = offset_fresh(only, 10), rl = offset_fresh(last, 10);
   stat("off.known_inputs");
   if (canon_closed(rf) != canon_closed(ro) || canon_closed(rl) != canon_closed(ro))
-    fail("kf.offset-empty-group-orientation", "ClipperOffset AddPaths({{}}, Miter, Polygon); AddPaths({{(0,0),(0,100),(100,100),(100,0)}}, Miter, Polygon); Execute(10): result is empty (the point-less first group makes CheckReverseOrientation answer false, the negatively oriented square is then removed by the Positive-fill union); alone or added first the square is inflated to 120x120");
+    fail("off.corpus.pointless-polygon-group-then-reversed", "ClipperOffset AddPaths({{}}, Miter, Polygon); AddPaths({{(0,0),(0,100),(100,100),(100,0)}}, Miter, Polygon); Execute(10): the negatively oriented square is not offset as it is alone or when added first (orientation taken from the point-less group)");
   emit_offframe(first, 10); emit_offframe(last, 10);
+  Path64 seg = {{0, 0}, {10, 0}}, tri = {{1000, 1000}, {1100, 1000}, {1100, 1100}};
+  for (int et = 1; et < 5; ++et)
+    for (int jt = 0; jt < 4; ++jt) {
+      std::vector<OGroup> with = {OGroup{Paths64{Path64(), seg, Path64(), tri}, jt, et}}, without = {OGroup{Paths64{seg, tri}, jt, et}}, onlyEmpty = {OGroup{Paths64{Path64()}, jt, et}};
+      stat("off.known_inputs");
+      if (offset_fresh(with, 5) != offset_fresh(without, 5) || !offset_fresh(onlyEmpty, 5).empty())
+        fail("off.corpus.empty-path-in-open-group", std::string("ClipperOffset AddPaths({{}, {(0,0),(10,0)}, {}, {(1000,1000),(1100,1000),(1100,1100)}}, ") + JTN[jt] + ", " + ETN[et] + "), Execute(5): empty paths change the result");
+      emit_offframe(with, 5);
+    }
+  // an insignificant delta returns the Polygon groups' paths (through the final union) and nothing for open paths
+  {
+    Path64 sq = {{0, 0}, {100, 0}, {100, 100}, {0, 100}};
+    std::vector<OGroup> mixed = {OGroup{Paths64{seg}, 3, 2}, OGroup{Paths64{sq}, 3, 0}, OGroup{Paths64{tri}, 3, 1}}, poly = {OGroup{Paths64{sq}, 3, 0}};
+    stat("off.known_inputs");
+    for (double dl : {0.0, 0.25, -0.49})
+      if (canon_closed(offset_fresh(mixed, dl)) != canon_closed(offset_fresh(poly, dl)) || canon_closed(offset_fresh(poly, dl)) != canon_closed(Paths64{sq}))
+        fail("off.corpus.insignificant-delta", "ClipperOffset with a Butt group, a Polygon square and a Joined group, |delta| < 0.5: result differs from the square alone");
+    emit_offframe(mixed, 0);
+  }
 }
 
 // observations on documented/arguable couplings (not failures unless switched on)
@@ -772,7 +769,8 @@ static void offcheck_grid() {
       for (int64_t dl : {12, -7, 40}) {
         Paths64 ps = et == 0 ? Paths64{tri, place(quad, 100000, 100000), place(ell, 200000, 200000), place(l1, 300000, 300000)}
                              : Paths64{l3, place(l4, 100000, 100000), place(tri, 200000, 200000), place(l1, 300000, 300000)};
-        if (!(KNOWN_OFFSET_STATE_DEFECTS_PRESENT && et == 1)) ps.push_back(place(l2, 400000, 400000));
+        ps.push_back(place(l2, 400000, 400000));
+        ps.insert(ps.begin() + 1, Path64());   // an empty path in every kind of group
         std::vector<OGroup> gs = {OGroup{ps, jt, et}};
         Paths64 whole = offset_fresh(gs, (double)dl), alone;
         for (auto& p : ps) { std::vector<OGroup> one = {OGroup{Paths64{p}, jt, et}}; Paths64 r = offset_fresh(one, (double)dl); alone.insert(alone.end(), r.begin(), r.end()); }
